@@ -769,6 +769,10 @@ where
             // 1: channel, timeout, fail flag; 2: fail flag, timeout, channel; 3: fail flag, channel, timeout
             let order = timeout.map(|t| t % 4);
             let dur = |t: u32| Duration::from_millis(t as u64);
+            if timeout.is_some_and(|t| (t / 8) % 2 == 1) {
+                // configured twice: the later call wins
+                b = b.timeout(dur(1));
+            }
             match (order, timeout) {
                 (Some(0), Some(t)) => b = b.timeout(dur(*t)).fail_on_timeout(*fail_on_timeout),
                 (Some(2), Some(t)) => b = b.fail_on_timeout(*fail_on_timeout).timeout(dur(*t)),
